@@ -125,11 +125,10 @@ impl<T: Send + 'static> EventSinkWriter<T> for EventBufferWriter<T> {
         }
 
         let mut buffer = self.inner.buffer.lock().unwrap();
-        if buffer.len() == self.inner.capacity {
+        buffer.push_back(event);
+        if buffer.len() > self.inner.capacity {
             buffer.pop_front();
         }
-
-        buffer.push_back(event);
     }
 }
 
